@@ -142,6 +142,8 @@ def _mutate(obj, mut):
         obj.parameters['p'].setProperty('visibility', 3)
     elif mut == 'cmdarg':
         obj.commands['c'].argument.setProperty('max', 3)
+    elif mut == 'cmdres':
+        obj.commands['c'].result.setProperty('min', 2)
     elif mut == 'tgtmin':
         obj.parameters['target'].datatype.setProperty('min', -3)
     else:
@@ -234,7 +236,8 @@ def describe_instance(obj):
     ex.pop('implementation', None)       # the class name is not part of the description
     return _intern({
         'order': list(obj.accessibles), 'acc': acc, 'modprops': ex,
-        'names': sorted(obj.accessiblename2attr.items()), 'writedict': sorted(obj.writeDict),
+        'names': sorted(obj.accessiblename2attr.items(), key=repr), 'writedict': sorted(obj.writeDict),
+        'inputs': sorted(getattr(obj, 'inputCallbacks', None) or ()),
     })
 
 
@@ -296,10 +299,17 @@ class World:
     def describe(self, errs):
         d = {'_': '_'}
         for x, c in self.cls.items():
-            d[x] = errs[x] if c is None else 'mixin' if x in self.mixins else describe_class(c)
+            d[x] = errs[x] if c is None else 'mixin' if x in self.mixins else _safely(describe_class, c)
         for x, o in self.inst.items():
-            d[x] = errs[x] if o is None else describe_instance(o)
+            d[x] = errs[x] if o is None else _safely(describe_instance, o)
         return d
+
+
+def _safely(fn, obj):
+    try:
+        return fn(obj)
+    except Exception as e:      # an object that can not even be described is an observation too
+        return _intern({'undescribable': type(e).__name__})
 
 
 def _canon(v):
@@ -367,7 +377,7 @@ P_DER = ['props', 'props2', 'ppty', 'dt', 'noinh', 'bare', 'bare3', 'none', 'new
 Q_DER = ['ppty', 'props', 'bare', 'none']
 V_DER = ['unit', 'lim', 'dt']
 C_DER = ['cmd', 'cprops', 'cgroup', 'method', 'none']
-MUTS = ['setmax', 'setmin', 'setunit', 'reginput', 'reginput2', 'pvis', 'cmdarg', 'tgtmin']
+MUTS = ['setmax', 'setmin', 'setunit', 'reginput', 'reginput2', 'pvis', 'cmdarg', 'cmdres', 'tgtmin']
 
 
 def random_program(rnd, nclasses, ninst, nmut):
